@@ -44,7 +44,7 @@ CHECKS["C11"] = ("other", "history dimension: the real VarPool serves one symbol
   "symbolic execution of go/ssa + SMT strings (two-run equality), nondeterministic map iteration order in the interpreter, CLI rerun gates", "§5 C11")
 
 CHECKS["C14"] = ("other", "alias allocator: symbolic execution of the real TypeConverter.AddImport over every history of 3 (thorough: 4) calls with symbolic paths/names (same path => same alias, distinct paths => distinct aliases; SMT strings, native replay); import table under every map iteration order; gates through the CLI on the wire corpus: byte-identical second run, gofmt-stable, type-checks with the wire files set aside, each set declared once; invalid inputs (syntax error, type error, duplicate set name, missing constructor) exit non-zero and write nothing",
-  "trusted: go/ssa, the interpreter fork, fmt.Sprintf stub, cvc5/z3, go/types and go/format as oracles of the gates; 'imports exactly what it uses' / 'compiles' only per enumerated configuration; MigrateFiles' failure points are covered through the invalid-input gate, not symbolically",
+  "trusted: go/ssa, the interpreter fork, fmt.Sprintf stub, cvc5/z3, go/types and go/format as oracles of the gates; 'imports exactly what it uses' / 'compiles' only per enumerated configuration; Migrator.MigrateFiles is executed with loader, extraction, transformation, printer and os.WriteFile stubbed at every failure position (real mergeResults and Writer.Write)",
   "symbolic execution of go/ssa + SMT strings for the alias allocator; enumeration gates through the real CLI for well-formedness", "§5 C14")
 
 CHECKS["C13"] = ("translation_validation", "oracle = google/wire v0.7.0 itself: for every enumerated wire configuration (DAG family, construct family, repository testdata) wire's injector and the injector kessoku generates from the migrated file are both executed symbolically from go/ssa (providers uninterpreted, struct literals as constructor terms, failures forked at every fallible call); result terms, multisets of (provider, argument terms), parameter lists and the error of every single-failure path must agree. The defect found (K10, Bind by-name constructor) was fixed (5450be3).",
